@@ -1,4 +1,5 @@
 import Driver.CT
+import Driver.CA
 /-!
 Line-protocol driver: one operation per input line, one observation per output line:
 `<model observation>\t<spec observation>`.  First token selects the component.
@@ -7,12 +8,16 @@ open Driver
 
 structure All where
   ct : CT.St := {}
+  ca : CA.St := {}
 
 def stepAll (s : All) (line : String) : All × String :=
   match (line.trimAscii.toString.splitOn " ").filter (· ≠ "") with
   | "ct" :: args =>
       let (c, a, b) := CT.step s.ct args
       ({ s with ct := c }, a ++ "\t" ++ b)
+  | "ca" :: args =>
+      let (c, a, b) := CA.step s.ca args
+      ({ s with ca := c }, a ++ "\t" ++ b)
   | [] => (s, "")
   | _ => (s, "bad-component\tbad-component")
 
